@@ -305,7 +305,8 @@ func (c *Controller) scaleNodeGroup(nodegroup string, nodeGroup *NodeGroupState)
 	metrics.NodeGroupMemCapacityLargestAvailableMem.WithLabelValues(nodegroup).Set(float64(nodeCapacity.LargestAvailableMemory.GetMemoryQuantity().MilliValue() / 1000))
 
 	// If we ever get into a state where we have less nodes than the minimum
-	if len(untaintedNodes) < nodeGroup.Opts.MinNodes {
+	// (unless a scale up is still cooling down: nothing is done until we're unlocked again)
+	if len(untaintedNodes) < nodeGroup.Opts.MinNodes && !nodeGroup.scaleUpLock.locked() {
 		log.WithField("nodegroup", nodegroup).Warn("There are less untainted nodes than the minimum")
 		result, err := c.ScaleUp(scaleOpts{
 			nodes:             allNodes,
